@@ -219,6 +219,20 @@ func (s *E2EScenario) Probes(k *sim.Kernel) map[string]int {
 		}
 	}
 	p["client_replies_received"] = logCount(k, "c.reply")
+	// messages whose wire length (with the NUL) is exactly a multiple of a power-of-two block
+	for _, c := range k.Conns {
+		for _, tap := range [][]byte{c.Client.Tap, c.Server.Tap} {
+			for _, m := range bytes.SplitAfter(tap, []byte{0}) {
+				switch {
+				case len(m) == 0:
+				case len(m)%65536 == 0:
+					p["message_length_multiple_of_64KiB"]++
+				case len(m)%4096 == 0:
+					p["message_length_multiple_of_4KiB"]++
+				}
+			}
+		}
+	}
 	return p
 }
 
